@@ -9,7 +9,8 @@ OkFlow(r) == /\ r.panics = 0
                 ELSE ~r.finalize_ok                                      \* any altered blind signature must be refused by Finalize
 OkSigner(r) == r.panics = 0 /\ (r.accepted => (r.below_modulus /\ r.right_length))        \* refuses inputs not below N / wrong length
                             /\ ((r.below_modulus /\ r.right_length /\ r.coprime) => r.accepted)
-OkPss(r) == r.panics = 0 /\ r.lib = PS!Consistent(r) /\ r.std = PS!Consistent(r)
+\* RSASSA-PSS-VERIFY: a signature representative that is not below the modulus is refused before anything else (RFC 8017 5.2.2 step 1)
+OkPss(r) == LET want == r.sig_in_range /\ PS!Consistent(r) IN r.panics = 0 /\ r.lib = want /\ r.std = want
 OkLine(r) == CASE r.ev = "flow" -> OkFlow(r) [] r.ev = "signer" -> OkSigner(r) [] r.ev = "pss" -> OkPss(r) [] OTHER -> FALSE
 INSTANCE LinesTrace WITH Ok <- OkLine
 ASSUME TLCSet(1, 0) /\ TLCSet(2, {}) /\ TLCSet(3, ndJsonDeserialize("trace.ndjson"))
